@@ -413,6 +413,34 @@ def build_converse(R, rng):
                     add(f"QGMRESSolver.solve[{prec or 'none'}]", tag,
                         lambda kind=kind, n=n, lay=lay, prec=prec: S.QGMRESSolver(preconditioner=prec).solve(
                             sq(kind, n, lay), gen.layout(refq.randq(rng, n, 1), lay)))
+    # Q-GMRES accepts ANY square system, whatever its rank or storage, with either preconditioner (a preconditioner that cannot be built is
+    # documented to be skipped): singular matrices that stop the LU at the first, a middle or the last pivot, the zero matrix, and
+    # SparseQuaternionMatrix operands; generic and zero right-hand sides
+    def sing(kind, n):
+        A = refq.randq(rng, n, n)
+        if kind == "zero":
+            A = refq.zeros(n, n)
+        elif kind == "rank1":
+            A = refq.matmul(refq.randq(rng, n, 1), refq.randq(rng, 1, n))
+        elif kind == "zero_first_col":
+            A[:, 0] = np.quaternion(0, 0, 0, 0)
+        elif kind == "dependent_mid_col":
+            A[:, 1] = A[:, 0] * np.quaternion(0, 1, 0, 0)
+        elif kind == "dependent_last_col":
+            A[:, n - 1] = A[:, 0] + A[:, 1]
+        return A
+    for kind in ("zero", "rank1", "zero_first_col", "dependent_mid_col", "dependent_last_col", "gen"):
+        for n in (3, 5):
+            for sp_ in (False, True):
+                for prec in (None, "left_lu"):
+                    for rhs in ("gen", "zero"):
+                        if rhs == "zero" and kind not in ("gen", "rank1"):
+                            continue
+                        def f(kind=kind, n=n, sp_=sp_, prec=prec, rhs=rhs):
+                            A = sing(kind, n)
+                            b = refq.randq(rng, n, 1) if rhs == "gen" else refq.zeros(n, 1)
+                            return S.QGMRESSolver(preconditioner=prec, tol=1e-8).solve(R.sparse_from_dense(A) if sp_ else A, b)
+                        add(f"QGMRESSolver.solve[{prec or 'none'}]", f"rank:{kind}:{n}x{n}:{'sparse' if sp_ else 'dense'}:rhs_{rhs}", f)
     # tridiagonalize smallest size
     add("tridiagonalize", "2x2", lambda: D.tridiagonalize(_herm(rng, 2)))
     # tensors with singleton dimensions
